@@ -106,6 +106,21 @@ func c11Inputs() []c11Input {
 		d = at(d, b, ins)
 		l = append(l, c11Input{"lexical_failure_bang_across_page", d, 4096})
 	}
+	// input that ends inside a multi-byte character: of a final comment, of a string, of a stray character
+	l = append(l,
+		c11Input{"ends_inside_character_of_final_comment", []byte("print 1 # caf\xc3"), -1},
+		c11Input{"ends_inside_character_of_final_comment_3_pages", append(append([]byte{}, big...), "# \xe6\xbc\xa2\xf0\x9f\x98"...), -1},
+		c11Input{"ends_inside_character_of_string", append(append([]byte{}, c11Valid(100)...), "print \"caf\xc3"...), -1},
+		c11Input{"ends_inside_stray_character", append(append([]byte{}, c11Valid(100)...), "print 1 \xe6\xbc"...), -1})
+	// a file of another kind: the bytecode dump of the valid program, whole and cut inside its header
+	if p, err := bcl.Parse(big, "in.bcl"); err == nil {
+		var b bytes.Buffer
+		if p.Dump(&b) == nil {
+			d := b.Bytes()
+			l = append(l, c11Input{"bytecode_dump_as_text", append([]byte{}, d...), 0}, c11Input{"bytecode_dump_header_as_text", append([]byte{}, d[:5]...), 0},
+				c11Input{"shebang_line_then_bytecode_dump", append([]byte("#!/usr/bin/env bcl\n"), d...), 19})
+		}
+	}
 	return l
 }
 
@@ -285,7 +300,7 @@ func init() {
 		Rule: "resource/termination monitor on scripted readers: ALL sequences of up to 5 steps over 8 step kinds {full read, short read, 1 byte, 0 bytes, data+EOF, data+error, error, EOF} (37448 scripts, each paired round-robin with one of 10 input classes: empty, valid 1 page / 3 pages, syntax error early/late, lexical failure early / late / at a page start / needing a lookahead byte from the next page) plus random longer scripts, " +
 			"with delays inside Read, Close and the log writer and seeded perturbation at the pipeline's suspension points (verifPoint hook), through ParseFile, InterpretFile and UnmarshalFile. Monitored: the call returns (goroutine-dump deadlock identification, per-case watchdog), Close count == 1 after quiescence, no Read after Close, " +
 			"<= 4 data reads after the failing byte was delivered however much input remains, Read calls <= steps + pages + 3, no library goroutine left blocked after the call, a delivered read error is returned (errors.Is). " +
-			"distinct = hash(input class, script, API, interleaving signature); non-trivial = the call returned and all counters were examined Input classes now also: 120 diagnostics followed by 3 kB of text, and one input per lexical-failure kind early in a long input. UnmarshalFile also gets unusable targets (nil, by value, nil pointer, slice); Close may return an error; read errors may wrap io.EOF.",
+			"distinct = hash(input class, script, API, interleaving signature); non-trivial = the call returned and all counters were examined Input classes now also: 120 diagnostics followed by 3 kB of text, and one input per lexical-failure kind early in a long input. UnmarshalFile also gets unusable targets (nil, by value, nil pointer, slice); Close may return an error; read errors may wrap io.EOF; inputs ending inside a multi-byte character (of a final comment, a string, a stray character); the bytecode dump of a program given as text (whole, header only, after a shebang line).",
 		Assumptions:   []string{"perturbation only delays at real suspension points; it cannot produce schedules the program cannot have", "in the thorough tier the workload also runs under the race detector build"},
 		MinNontrivial: 1000,
 		RaceAlso:      func(tier string) bool { return tier == "thorough" },
